@@ -51,7 +51,8 @@ def impl_case(case):
     if op in BOOLS:
         return {"bool": bool(getattr(g, op)())}
     if op == "get_words":
-        return {"words": [[cfglib._v(x) for x in w] for w in g.get_words(case["n"])]}
+        # unbounded mode (finite languages only): the model is asked for every word up to case["n"], a bound the generator guarantees
+        return {"words": [[cfglib._v(x) for x in w] for w in (g.get_words() if case.get("unbounded") else g.get_words(case["n"]))]}
     if op == "is_finite":
         return {"bool": bool(g.is_finite())}
     if op in SYMBOL_SETS:
